@@ -122,6 +122,10 @@ def run_task(task):
         bad = [o for o in res['obligations'] if o['status'] in ('sat', 'failed')]
         if bad or res['exception']:
             res['replay'] = _replay(prop, name, params, bad, res['exception'], seed, opts.get('replay_random', 2), res.get('exception_where'))
+            if res['exception'] and not res['replay'].get('confirmed') and not opts.get('noprobe'):
+                # an exception that only the symbolic run sees (typically the harness indexing a stub call that a changed /repo no longer makes):
+                # probe the unmodified code concretely before giving up
+                res['probe'] = _probe(prop, name, params, seed, 3)
         elif res['error'] and not opts.get('noprobe'):
             # the symbolic run ended without a verdict (unmodelled call, unexpected fork, budget): probe the unmodified code on a few random
             # inputs with the concrete oracles of the same scenario -- a failure there is a real, replayable violation (found by sampling, and
